@@ -50,6 +50,7 @@ def obligation(ctx, rule, F, q, spec, impl_filter=None, site=None):
 
 
 def run(ctx):
+    prune.check_wrappers(ctx, 'C16.R1', {'AffFuncBase::matrix_view': ('self.mat', [], 'a view of the matrix'), 'AffFuncBase::bias_view': ('self.bias', [], 'a view of the bias')})
     prune.check_layout_independence(ctx, 'C16.R1')
     F = ctx.facts
     fn = lambda b: 'FunctionT' in (b.impl_self or '')
